@@ -49,7 +49,7 @@ COMPONENTS = {"real": ["parser, generator, graphs, mol_prob, force-field typing,
 
 OPS = ["gen_seeded", "gen_seeded", "gen_seeded", "gen_global", "print", "parse_again", "elements_mutate", "mirror_mutate",
        "mirror_generate", "reaction_graph", "atom_graph", "ensemble_prob", "typing", "perturb_global", "gen_fault", "system_iter",
-       "gen_seeded_sim"]
+       "gen_seeded_sim", "atom_graph_generate", "ensemble_prob_value"]
 
 
 def plan(tier):
@@ -185,6 +185,34 @@ def _generate_outcome(obj, rng):
         return ("exc", type(exc).__name__)
 
 
+def _atom_graph_generate(g, obj, seed):
+    from rdkit import Chem
+
+    try:
+        sg = obj.gen_stochastic_atom_graph(True)
+        ag = g.AtomGraph(sg, rng=np.random.default_rng(seed))
+        ag.generate()
+        return ("ok", Chem.MolToSmiles(ag.to_mol()))
+    except SimAbort:
+        raise
+    except Exception as exc:
+        return ("exc", type(exc).__name__)
+
+
+def _ensemble_prob_value(g, obj, seed):
+    try:
+        mg = obj.generate(rng=np.random.default_rng(seed))
+        # get_ensemble_prob's search is exponential for branched / long molecules: a deterministic size criterion decides
+        # (a time limit would make the baseline and the history disagree by accident)
+        if not mg.fully_generated or mg.mol.GetNumAtoms() > 12 or any(len(r.bond_descriptors) > 2 for r in obj.residues):
+            return ("skip",)
+        return ("ok", mg.smiles, round(float(g.mol_prob.get_ensemble_prob(mg.smiles, obj)[0]), 12))
+    except SimAbort:
+        raise
+    except Exception as exc:
+        return ("exc", type(exc).__name__)
+
+
 def _baseline_compute(req):
     """Runs in a fresh child of the pristine server."""
     g = boot.load()
@@ -224,6 +252,10 @@ def _baseline_compute(req):
                 return ("ok", _graph_digest(sg.graph))
             except Exception as exc:
                 return ("exc", type(exc).__name__)
+        if kind == "atom_graph_generate":
+            return _atom_graph_generate(g, obj, req["seed"])
+        if kind == "ensemble_prob_value":
+            return _ensemble_prob_value(g, obj, req["seed"])
     return ("harness_exc", f"unknown baseline request {kind}", "")
 
 
@@ -240,7 +272,13 @@ def spec_from_seed(run_seed, tier):
                     break
             inputs.append({"text": t, "kind": "system"})
         else:
-            t, tags = archetypes.gen_molecule(rnd, {"branchy": True, "safe_dist": rnd.random() < 0.85, "allow_illposed": False})
+            cfg = {"branchy": True, "safe_dist": rnd.random() < 0.85, "allow_illposed": False}
+            sz_only = rnd.random() < 0.15
+            t, tags = archetypes.gen_molecule(rnd, cfg)
+            if sz_only:
+                import re
+
+                t = re.sub(r"\|[a-z_]+\([^)]*\)\|", lambda m: "|schulz_zimm(%d, %d)|" % (rnd.choice([130, 210]), rnd.choice([100, 160])) if False else "|schulz_zimm(208, 160)|", t)
             inputs.append({"text": t, "kind": "molecule"})
     n_ops = rnd.choice([8, 10, 14, 20, 28])
     ops = []
@@ -403,6 +441,20 @@ class _Client:
                 got = ("exc", type(exc).__name__)
             if tuple(got) != tuple(b):
                 self.viol("graph_differs", f"stochastic atom graph of {inp['text']!r}: {got} vs baseline {b}")
+            return None
+        if op in ("atom_graph_generate", "ensemble_prob_value"):
+            if inp["kind"] != "molecule" or (op == "ensemble_prob_value" and len(inp["text"]) > 90):
+                return None
+            if op == "atom_graph_generate" and ("schulz_zimm" not in inp["text"] or any(f in inp["text"] for f in ("gauss", "uniform", "poisson", "log_normal", "flory"))):
+                return None
+            b = baseline({"what": op, "text": inp["text"], "kind": inp["kind"], "seed": o["seed"]})
+            if b[0] == "harness_exc":
+                return f"baseline failed: {b}"
+            got = _atom_graph_generate(g, obj, o["seed"]) if op == "atom_graph_generate" else _ensemble_prob_value(g, obj, o["seed"])
+            self.mutating += 1
+            self.count("derived_outputs_compared")
+            if tuple(got) != tuple(b):
+                self.viol("derived_output_differs", f"op {self.stats['operations']} {op}(seed {o['seed']}) on {inp['text']!r}: got {got}, history-free baseline {b}")
             return None
         if op == "ensemble_prob":
             if inp["kind"] != "molecule" or len(inp["text"]) > 90:
